@@ -12,6 +12,7 @@ CONTRACTS = {}
 LEMMAS = {}
 SPEC_FUNCS = {}      # name -> python callable (run time)
 SPEC_ASTS = {}       # name -> ast.FunctionDef (prover)
+_SPEC_SRC = {}
 DOMAINS = {}         # contract name -> callable(tier, seed) -> iterable of dict(args=..., kwargs=...)
 _current_file = [None]
 
@@ -290,5 +291,9 @@ def load_specs(specdir=None):
         exec(compile(tree, path, "exec"), ns)
         for node in tree.body:
             if isinstance(node, ast.FunctionDef) and node.name in ns:
+                if node.name in SPEC_FUNCS and not node.name.startswith("_") and \
+                        ast.dump(node) != ast.dump(_SPEC_SRC[node.name]):
+                    raise ValueError("spec function %s is defined differently in two spec files (%s)" % (node.name, path))
+                _SPEC_SRC.setdefault(node.name, node)
                 SPEC_FUNCS.setdefault(node.name, ns[node.name])
     _current_file[0] = None
